@@ -97,6 +97,7 @@ def correspondence(ctx):
     polys = [c for c in corpus if c["kind"] == "poly"] + _poly_stream(ctx, ctx.n(95, 1000))
     curves = [c for c in corpus if c["kind"] == "curve"] + _curve_stream(ctx, ctx.n(40, 500))
     pterms, cterms, pidx, cidx = [], [], [], []
+    polys = [c for c in polys if not c.get("large_x")]      # large |x|: oracle only (big rationals are slow in vm_compute)
     for c in polys:
         obs = fc.run_case(c)
         res.evaluations += 1
@@ -157,6 +158,8 @@ def correspondence(ctx):
                 break
             if k > 0:
                 res.nontrivial.add(core.canonical_key("h", [h, k]))
+            if cur.get("large_x"):
+                continue
             if cur["kind"] == "poly":
                 pterms.append(fc.coq_poly_case(cur, obs))
                 pidx.append(h)
@@ -209,6 +212,8 @@ def check_poly_oracle(case, obs=None):
     obs = obs or fc.run_case(case)
     if case.get("malformed") in ("lo>hi", "badlen", "nonreal"):
         return None if obs["exn"] is not None else "a fit request with an invalid x-range ({}) was accepted".format(case["malformed"])
+    if fc.numerically_lost(case, obs):
+        return None
     if obs["exn"] is not None:
         if case.get("malformed"):
             return None
